@@ -50,6 +50,22 @@ func checkC16(c *Ctx) {
 			if i%40 == 0 {
 				doc = bigDoc(r, 2, 0) // above the async threshold
 			}
+			if i%7 == 3 {
+				// a long escape-free string as (nearly) the last value: parseString's
+				// padded-copy path (string reaching into the last 64 bytes of the input
+				// with more than 448 bytes between its opening quote and the end)
+				L := []int{300, 385, 449, 600, 1000, 5000}[r.Intn(6)]
+				pad := strings.Repeat(" ", r.Intn(70))
+				long := strings.Repeat("abcdefghij", L/10+1)[:L]
+				switch r.Intn(3) {
+				case 0:
+					doc = []byte(`{"a":1,"s":"` + long + `"` + pad + `}`)
+				case 1:
+					doc = []byte(`["x",[2,"` + long + `"]` + pad + `]`)
+				default:
+					doc = []byte(`{"` + long + `":"v","t":"` + long[:L/2] + `"}` + pad)
+				}
+			}
 		}
 		info := map[string]interface{}{"doc_hex": fmt.Sprintf("%x", trunc(string(doc), 3000)), "doc_text": printable(doc), "nd": nd}
 		// (i) overwrite after a copying parse; one time in two the parse uses the
